@@ -54,7 +54,7 @@ func discoverContractFiles() []string {
 		if d.IsDir() && (d.Name() == ".git" || d.Name() == "testdata") {
 			return filepath.SkipDir
 		}
-		if !d.IsDir() && d.Name() == "zz_verif_contracts.go" {
+		if !d.IsDir() && isContractFile(d.Name()) {
 			out = append(out, p)
 		}
 		return nil
@@ -246,7 +246,7 @@ func (e *Engine) load(patterns []string) error {
 			continue
 		}
 		for _, f := range p.GoFiles {
-			if filepath.Base(f) == "zz_verif_contracts.go" {
+			if isContractFile(filepath.Base(f)) {
 				var cf *ContractFile
 				var err error
 				if ov, ok := e.overlay[f]; ok {
@@ -339,4 +339,9 @@ func (e *Engine) importedPkg(from *types.Package, qual string) *types.Package {
 		}
 	}
 	return nil
+}
+
+// isContractFile: zz_verif_contracts.go and generated companions zz_verif_*_contracts.go.
+func isContractFile(name string) bool {
+	return strings.HasPrefix(name, "zz_verif_") && strings.HasSuffix(name, "contracts.go")
 }
